@@ -132,7 +132,7 @@ pub fn encodings(v: &Val) -> (Option<String>, String, usize, usize) {
                 (t, j, 10, 24)
             }
         }
-        Val::Snapshot { book, vis, hid, count } => {
+        Val::Snapshot { book, vis, hid, count, .. } => {
             let x = PriceLevelSnapshot {
                 price: book.price,
                 visible_quantity: *vis,
